@@ -17,6 +17,11 @@ from taskchain import InMemoryData, Task
 from taskchain.data import ContinuesData, DirData, GeneratedDataLazy, ListOfNumpyData
 from taskchain.parameter import InputTaskParameter, Parameter
 
+# progress bars only pollute the output of the checks
+import taskchain.utils.io as _tc_io  # noqa: E402
+
+_tc_io.progress_bar = lambda data, **kw: data
+
 RUNLOG = []  # one entry per run invocation of a generated task, appended when the body finishes or raises
 CTRL = {'raise': None, 'bad': {}}  # fault plan of the current step (see body())
 
